@@ -594,7 +594,12 @@ def generate(seed, tier, env=None, canaries=None):
 
 def generate_lifetime(seed, tier, nseg=None, canaries=None):
     r = rng_for(seed, "lifetime")
-    env = {"hashseed": r.choice(HASHSEEDS[tier]), "cache": r.choice(CACHES[tier])}
+    if tier == "quick":
+        # two environments only: every environment costs one reference table (forks) up front
+        hs, ca = r.choice([(0, 1000), (1, 8)])
+        env = {"hashseed": hs, "cache": ca}
+    else:
+        env = {"hashseed": r.choice(HASHSEEDS[tier]), "cache": r.choice(CACHES[tier])}
     n = nseg or SEGMENTS[tier]
     segs = [generate(int(digest([seed, j], 15), 16), tier, env) for j in range(n)]
     return {"prop": PROP, "seed": seed, "tier": tier, "env": env, "segments": segs}
